@@ -38,6 +38,48 @@ var baselineSigsTxt string
 
 // baselineSigs: full name -> signature (with receiver) of the functions of the pinned tree; used to
 // recognise an anchor function that was merely renamed.
+//go:embed baseline_callers.txt
+var baselineCallersTxt string
+
+// baselineCallers: declared function of the pinned tree -> the declared functions that call it statically.
+func baselineCallers() map[string][]string {
+	m := map[string][]string{}
+	for _, l := range strings.Split(baselineCallersTxt, "\n") {
+		f := strings.SplitN(strings.TrimSpace(l), "\t", 2)
+		if len(f) == 2 && !strings.HasPrefix(f[0], "#") {
+			m[f[0]] = append(m[f[0]], f[1])
+		}
+	}
+	return m
+}
+
+// callerInventory lists "callee TAB user" for every reference from one declared module function to another.
+func callerInventory(pkgs []*packages.Package) []string {
+	seen := map[string]bool{}
+	var out []string
+	for _, d := range moduleDecls(pkgs) {
+		ast.Inspect(d.decl.Body, func(n ast.Node) bool {
+			// any reference counts (a call, a method value, a state function returned as a value)
+			id, ok := n.(*ast.Ident)
+			if !ok {
+				return true
+			}
+			fn, _ := d.pkg.TypesInfo.Uses[id].(*types.Func)
+			if fn == nil || fn.Pkg() == nil || !strings.HasPrefix(fn.Pkg().Path(), Mod) {
+				return true
+			}
+			l := fn.Origin().FullName() + "\t" + d.fn.FullName()
+			if !seen[l] && fn.Origin().FullName() != d.fn.FullName() {
+				seen[l] = true
+				out = append(out, l)
+			}
+			return true
+		})
+	}
+	sort.Strings(out)
+	return out
+}
+
 func baselineSigs() map[string]string {
 	m := map[string]string{}
 	for _, l := range strings.Split(baselineSigsTxt, "\n") {
